@@ -1038,7 +1038,7 @@ class Parser:
         verbose: bool = False,
     ) -> ast.Module | None:
         """Parse a file or string."""
-        with open(path, encoding="utf-8") as f:
+        with open(path, encoding="utf-8-sig") as f:  # a UTF-8 byte order mark is not part of the source (as in CPython)
             tok_stream = generate_tokens(f.readline)
             tokenizer = Tokenizer(tok_stream, verbose=verbose, path=str(path))
             parser = cls(
